@@ -53,6 +53,27 @@ def built_list_ok(t: Term, parameters: Term, cond=None) -> bool:
 
 def partial_binding(cx: Cx, fn, term: Term, item: Term) -> Optional[tuple]:
     """For run = partial(f, a..., k=v...), the binding of f's parameters when called as run(item)."""
+    if isinstance(term, App) and term.fn.startswith('new:'):
+        # a callable object of a package class (a frozen dataclass standing in for functools.partial): what its __call__ returns
+        ci = cx.prog.classes.get(term.fn[4:])
+        ms = cx.prog.lookup_method(ci, '__call__') if ci is not None else []
+        if ms and len(ms[0].params) == 2:
+            cfn = ms[0]
+            from sa.terms import subst_term
+            rows = []
+            for q in cx.walker.paths(cfn, WalkOptions(unroll=1, callee_raises=False,
+                                                      no_full_inline=frozenset({'_run_model_for_search', '_run_model_for_batch'})),
+                                     init_env={cfn.params[0]: term}):
+                if q.end == 'return':
+                    rows.append(q.last.data.get('value'))
+            if len(rows) == 1 and isinstance(rows[0], App) and rows[0].fn.startswith('call:'):
+                callee = cx.prog.functions.get(rows[0].fn[5:])
+                if callee is not None:
+                    args_ = [subst_term(a, {Sym(cfn.params[1]): item}) for a in rows[0].args]
+                    kw_ = {k: subst_term(v, {Sym(cfn.params[1]): item}) for k, v in rows[0].kw}
+                    b = _Ctx(cx.walker, fn, WalkOptions()).bind_args(callee, None, args_, kw_, State(), False)
+                    return (callee, b) if b is not None else None
+        return None
     if not (isinstance(term, App) and term.fn == 'call' and term.args and term.args[0] == Sym('functools.partial') and len(term.args) >= 2):
         return None
     f = term.args[1]
